@@ -119,7 +119,7 @@ func (afs *osFS) Stat(path fs.RelPath) (*fs.Metadata, error) {
 	if err != nil {
 		return nil, fs.NormalizeIOError(err)
 	}
-	return afs.convertFileinfo(path, fi)
+	return afs.convertFileinfo(path, rpath, fi)
 }
 
 func (afs *osFS) LStat(path fs.RelPath) (*fs.Metadata, error) {
@@ -131,10 +131,12 @@ func (afs *osFS) LStat(path fs.RelPath) (*fs.Metadata, error) {
 	if err != nil {
 		return nil, fs.NormalizeIOError(err)
 	}
-	return afs.convertFileinfo(path, fi)
+	return afs.convertFileinfo(path, rpath, fi)
 }
 
-func (afs *osFS) convertFileinfo(path fs.RelPath, fi os.FileInfo) (*fs.Metadata, error) {
+// rpath is the location the path was resolved to (inside the base); the link target is read there,
+// not at the unresolved spelling, which the kernel would resolve against the host root.
+func (afs *osFS) convertFileinfo(path fs.RelPath, rpath string, fi os.FileInfo) (*fs.Metadata, error) {
 	// Copy over the easy 1-to-1 parts.
 	fmeta := &fs.Metadata{
 		Name:  path,
@@ -152,7 +154,7 @@ func (afs *osFS) convertFileinfo(path fs.RelPath, fi os.FileInfo) (*fs.Metadata,
 		fmeta.Type = fs.Type_Symlink
 		// If it's a symlink, get that info.
 		//  It's an extra syscall, but we almost always want it.
-		if target, _, err := afs.readlink(afs.basePath.Join(path).String()); err == nil {
+		if target, _, err := afs.readlink(rpath); err == nil {
 			fmeta.Linkname = target
 		} else {
 			return nil, err
